@@ -249,6 +249,32 @@ Fixpoint run_resumes (a : assets) (tmo : text) (lv : live) (ops : list (bool * r
       end
   end.
 
+(* the per-call fields of the session right after every restart of a history, before the next engine call (what
+   Session.BatchStart() / CurrentResume() / ParentRun() answer on the object ReadSession returned) *)
+Fixpoint reread_contexts (a : assets) (tmo : text) (lv : live) (ops : list (bool * resume)) : list transient :=
+  match ops with
+  | [] => []
+  | (restart, r) :: rest =>
+      let lv0 := if restart then restore (persist lv) else Restored lv in
+      match lv0 with
+      | RestoreError _ => []
+      | Restored lv1 =>
+          (if restart then [lv_tr lv1] else []) ++
+          let '(res, tr) := live_resume a lv1 r tmo in
+          match after_call lv1 res tr with
+          | Some lv2 => reread_contexts a tmo lv2 rest
+          | None => []
+          end
+      end
+  end.
+
+Definition history_reread_contexts (a : assets) (tmo : text) (t : trigger) (flow : id) (batch : bool) (ops : list (bool * resume)) : list transient :=
+  let '(res, tr) := live_start a t flow batch in
+  match res with
+  | ROk x => reread_contexts a tmo {| lv_core := session_ x; lv_batch_trigger := batch; lv_tr := tr |} ops
+  | _ => []
+  end.
+
 (* restart pattern [bs] applied to the resumes [rs] (a pattern that is too short is continued with "keep alive") *)
 Fixpoint with_pattern (bs : list bool) (rs : list resume) : list (bool * resume) :=
   match rs with
